@@ -409,6 +409,73 @@ func ryIntern(w *World) {
 		} else {
 			w.violation("internSlow|poison-before-panic", slow.Decl.Pos(), "a failed append can panic without poisoning the index slot: concurrent interners of the same string spin forever")
 		}
+		// the index key is the private clone: strings.Clone precedes the first index operation
+		isClone := func(x ast.Node) bool {
+			as, ok := x.(*ast.AssignStmt)
+			if !ok || len(as.Rhs) != 1 {
+				return false
+			}
+			c, ok := ast.Unparen(as.Rhs[0]).(*ast.CallExpr)
+			if !ok {
+				return false
+			}
+			f := callee(info, c)
+			return f != nil && f.Pkg() != nil && f.Pkg().Path() == "strings" && f.Name() == "Clone"
+		}
+		isIndexOp := func(x ast.Node) bool {
+			c, ok := x.(*ast.CallExpr)
+			if !ok {
+				return false
+			}
+			_, ok = methodOnField(info, c, indexF)
+			return ok
+		}
+		nb, bad = mustPrecede(info, slow.Decl.Body, isClone, isIndexOp)
+		if nb >= 1 && len(bad) == 0 {
+			w.ok("internSlow|clone-before-index", slow.Decl.Pos(), "the string is cloned before it is used as the index key: the key never aliases a caller's buffer (InternBytes passes an alias of the caller's bytes)")
+		} else {
+			w.violation("internSlow|clone-before-index", slow.Decl.Pos(), "the index is accessed with a key that is not yet the private clone: through InternBytes the map key aliases the caller's byte slice, and reusing that buffer later changes the key under the map (equal strings get different ids, different strings share one)")
+		}
+		// atomic insert-if-absent: the placeholder enters the index only through LoadOrStore; Store is
+		// allowed only for the typed-nil poison
+		for _, b := range allFuncBodies(p) {
+			if b.Lit != nil {
+				continue
+			}
+			ast.Inspect(b.Body, func(x ast.Node) bool {
+				c, ok := x.(*ast.CallExpr)
+				if !ok {
+					return true
+				}
+				m, ok := methodOnField(info, c, indexF)
+				if !ok {
+					return true
+				}
+				key := "index-op|" + b.Label + "|" + m
+				switch m {
+				case "Load", "LoadOrStore", "Range":
+					w.okTrivial(key, c.Pos(), "read or atomic insert-if-absent")
+				case "Store":
+					isPoison := false
+					if len(c.Args) == 2 {
+						if tv, ok := info.Types[c.Args[1]]; ok && tv.IsNil() {
+							isPoison = true
+						}
+						if call, ok := ast.Unparen(c.Args[1]).(*ast.CallExpr); ok && len(call.Args) == 1 && isNilIdent(info, call.Args[0]) {
+							isPoison = true // (*atomic.Int32)(nil)
+						}
+					}
+					if isPoison {
+						w.ok(key, c.Pos(), "Store is used only to poison the slot with a typed nil after a failed append")
+					} else {
+						w.violation(key, c.Pos(), "Table.index.Store of a placeholder: inserting with Load-then-Store is a check-then-act race — two goroutines interning the same new string both become leader and hand out different ids; use LoadOrStore")
+					}
+				default:
+					w.violation(key, c.Pos(), "unexpected operation Table.index."+m)
+				}
+				return true
+			})
+		}
 		// id offset agreement: writer stores i+K, reader loads id-K
 		var wk, rk int64 = -1, -2
 		ast.Inspect(slow.Decl.Body, func(x ast.Node) bool {
